@@ -159,9 +159,9 @@ LEVELS = {
  'C09': {
   'text': 'C09_undelegation_within_books (a true-ratio rate makes floor(requests*rate) <= booked stake, so the checked_sub of the batch undelegation cannot fail), C09_pick_validator_live (undelegation plan exists whenever claim <= delegated, via C12), '
           'C09_unbond_stsei_live (the hub side of a stSei unbond succeeds from: slashing check ok, monotone time, token registered, and - when the batch closes - the two premises above plus books <= delegations), the first unbond after the epoch undelegates (C08), withdrawal after the period (C01, under its side condition); '
-          'C09_exits_ignore_swap_and_oracle / C09_hub_independent_of_stubs: the exit handlers\' inputs do not contain the stub state and the hub computes identically under any stub behaviour. '
-          'PARTIAL: the bSei unbond and the token-side fault points are not composed into one system-level liveness theorem; known findings D6 (zero-backed pool blocks every undelegation) and D5.',
+          'C09_noninterference (whole transactions, every state): for every behaviour of the swap and oracle stubs and every calm top-level message - Bond, BondForStSei, the cw20 Send/SendFrom carrying Unbond or Convert, WithdrawUnbonded, CheckSlashing, every token message, ClaimRewards (examples in the file) - the transaction has the same outcome and leaves every contract, bank account, delegation, unbonding entry and pending reward the same; proved through the message executor (handle_stubs: one message; handle_calm: calm messages emit only calm messages, generated contract by contract; run_stubs: the queue). '
+          'PARTIAL (liveness clause only): the hub-side liveness lemmas are not composed with the token side into one system-level liveness theorem; known findings D6 (zero-backed pool blocks every undelegation) and D5.',
   'note': 'Trusted: Lean kernel; hub model; premises are invariants proved in C02/C03/C08. Gas exhaustion of long release loops cannot be exhibited. Known findings D5, D6.',
-  'technique': 'Lean 4 liveness lemmas per fault point + structural non-interference; dry-run exits and stub-mode re-execution on cloned implementation states',
+  'technique': 'Lean 4 system-level non-interference theorem over whole transactions + liveness lemmas per fault point; dry-run exits and stub-mode re-execution on cloned implementation states',
  },
 }
